@@ -3870,7 +3870,19 @@ def pull(
                 config=r.get_config_stack(),
             )
         if remote_name is not None:
-            _import_remote_refs(r.refs, remote_name, fetch_result.refs)
+            # Only the selected refs were fetched. Record the other remote
+            # branches and tags only when the object they point at is present;
+            # a ref to an object that was never transferred would leave the
+            # repository broken.
+            _import_remote_refs(
+                r.refs,
+                remote_name,
+                {
+                    name: value
+                    for name, value in fetch_result.refs.items()
+                    if value is None or value in r.object_store
+                },
+            )
 
     # Trigger auto GC if needed
     from ..gc import maybe_auto_gc
